@@ -64,7 +64,8 @@ def gen_config(rng, *, fronts=(("interval", 6), ("reverse", 1.5), ("tree", 1.5),
     else:
         t0 = rng.choice([1000.0, -1000.0])
         t1 = t0 + rng.choice([1.0, 4.0])
-    size = _pick(rng, [((), 1), ((2,), 1.5), ((3,), 0.5), ((2, 2), 2), ((1, 3), 1), ((3, 2), 1), ((2, 1), 0.5)])
+    size = _pick(rng, [((), 1), ((2,), 1.5), ((3,), 0.5), ((2, 2), 2), ((1, 3), 1), ((3, 2), 1), ((2, 1), 0.5),
+                       ((2, 1, 2), 0.4), ((1, 2, 3), 0.3)])
     if small:
         size = _pick(rng, [((), 1), ((2,), 1), ((2, 2), 2)])
     dtype = "float32" if (allow_f32 and rng.random() < 0.12) else "float64"
@@ -449,7 +450,20 @@ def gen_ops(rng, cfg, dom, n_target, mix=None):
     return ops[:max(n_target, 1)] if len(ops) > n_target + 40 else ops
 
 
+def add_arg_types(rng, ops, p=0.15):
+    """Times are sometimes passed the way solvers pass them (0-dim tensors) or as ints (explicit field `targ`)."""
+    for op in ops:
+        if op["op"] != "q" or rng.random() >= p:
+            continue
+        ta, tb = xf(op["ta"]), xf(op["tb"])
+        if ta == int(ta) and tb == int(tb) and rng.random() < 0.5:
+            op["targ"] = "int"
+        else:
+            op["targ"] = "tensor64"
+
+
 def add_faults(rng, ops, rate):
+    add_arg_types(rng, ops)
     """Attach cache faults to ops (in place). `rate` is the per-op probability of each kind."""
     if rate <= 0:
         return
@@ -543,7 +557,7 @@ class BMExec:
         self.sde_time = 0.0
         self.is_f32 = built.cfg["dtype"] == "float32"
 
-    def raw(self, ta, tb, U, A, faults=None, idx=None):
+    def raw(self, ta, tb, U, A, faults=None, idx=None, targ=None):
         """One call of the service. Returns dict W,U,A (tensors or None)."""
         b = self.b
         if self.guard and ta < tb:
@@ -555,14 +569,20 @@ class BMExec:
         b.plan.begin_op(faults)
         try:
             try:
+                if targ == "tensor64":
+                    ta_, tb_ = torch.tensor(ta, dtype=torch.float64), torch.tensor(tb, dtype=torch.float64)
+                elif targ == "int":
+                    ta_, tb_ = int(ta), int(tb)
+                else:
+                    ta_, tb_ = ta, tb
                 if self.monitor_budget is not None:
                     budget = self.auto_budget() if self.monitor_budget == "auto" else self.monitor_budget
                     with seams.CallMonitor(budget) as mon:
-                        out = b.front(ta, tb, return_U=U, return_A=A)
+                        out = b.front(ta_, tb_, return_U=U, return_A=A)
                     self.max_depth = max(self.max_depth, mon.max_depth)
                     self.max_events = max(self.max_events, mon.events)
                 else:
-                    out = b.front(ta, tb, return_U=U, return_A=A)
+                    out = b.front(ta_, tb_, return_U=U, return_A=A)
             except SimBudgetExceeded as e:
                 raise Violation("budget", {"ta": fx(ta), "tb": fx(tb), "msg": str(e)}, idx)
             except (HarnessError, Violation, PassThrough):
